@@ -185,6 +185,14 @@ def check(model, rep, tier):
           if used_with or v in _try_finally_pairs(fi.node):
             rep.hold('CTX-WITH', site, {'form': 'local+with', 'line': n.lineno})
             continue
+        # the never-entered bottom of the per-thread stack, built in place:
+        # <obj>.<attr> = [Ctx(...)]
+        if any(isinstance(a, ast.Assign) and isinstance(a.value, ast.List) and
+               any(el is n for el in a.value.elts) and
+               isinstance(a.targets[0], ast.Attribute)
+               for a in ast.walk(fi.node)):
+          rep.hold('CTX-WITH', site, {'form': 'stack-bottom', 'line': n.lineno})
+          continue
         rep.violation(
             'CTX-WITH', site,
             'a status context is constructed but not entered by a `with` '
@@ -464,6 +472,15 @@ def check(model, rep, tier):
               core.dotted(a.targets[0]) == '%s.%s' % (tls_names[0], attr)]
     probes = [c for c in ast.walk(accessor.node) if isinstance(c, ast.Call) and
               isinstance(c.func, ast.Name) and c.func.id in ('hasattr', 'getattr')]
+    # ... or by the handler of an AttributeError raised by reading it
+    for t in ast.walk(accessor.node):
+      if isinstance(t, ast.Try) and any(
+          isinstance(x, ast.Attribute) and core.dotted(x) == '%s.%s' % (tls_names[0], attr)
+          and isinstance(x.ctx, ast.Load) for b in t.body for x in ast.walk(b)):
+        for h in t.handlers:
+          if h.type is not None and core.dotted(h.type) == 'AttributeError' and any(
+              st in stores for b in h.body for st in ast.walk(b)):
+            probes.append(h)
     ok2 = len(stores) == 1 and isinstance(stores[0].value, ast.List) and \
         len(stores[0].value.elts) == 1 and bool(probes)
     rep.check(ok2, 'CTX-TLS', '%s:lazy-per-thread-default' % accessor.site,
